@@ -31,6 +31,8 @@ tanh = Intrinsic("tanh")
 arcsin = Intrinsic("arcsin")
 arccos = Intrinsic("arccos")
 arctan2 = Intrinsic("arctan2")
-PI = Intrinsic("pi")
+from .sym import Sym as _Sym, PI as _PI
+PI = _Sym(_PI)
 
 SPEC_GLOBALS = {k: v for k, v in list(globals().items()) if isinstance(v, Intrinsic)}
+SPEC_GLOBALS["PI"] = PI
